@@ -227,7 +227,16 @@ func (v *PacketDslVisitorImpl) VisitFieldDefinitionWithAttribute(ctx *gen.FieldD
 			}
 			// a field typed by a MetaData entry shares that entry's attribute with every other
 			// field of the same type: pad a copy so the attribute applies to this field only
-			fixedString := *f.Attr.(*model.FixedStringFieldAttribute)
+			fixedStringAttr, isFixedString := f.Attr.(*model.FixedStringFieldAttribute)
+			if !isFixedString {
+				v.BinModel.AddSyntaxError(&model.SyntaxError{
+					Line:   fieldAttr.GetStart().GetLine(),
+					Column: fieldAttr.GetStart().GetColumn(),
+					Msg:    "Padding attribute is only allowed on char[n]/zchar[n] fields, not on field " + f.Name,
+				})
+				continue
+			}
+			fixedString := *fixedStringAttr
 			fixedString.Padding = &model.Padding{
 				PadChar: padChar,
 				PadLeft: strings.Contains(fieldAttr.PaddingAttribute().PADDING_ATTR().GetText(), "left"),
